@@ -34,6 +34,7 @@ MODEL_QUERY_PREFIXES = ("to_", "get_", "is_", "check_model", "predict", "simulat
 MODEL_FILES = ("pgmpy/models/BayesianNetwork.py", "pgmpy/models/MarkovNetwork.py", "pgmpy/models/FactorGraph.py", "pgmpy/models/JunctionTree.py",
                "pgmpy/models/ClusterGraph.py", "pgmpy/models/DynamicBayesianNetwork.py", "pgmpy/models/NaiveBayes.py", "pgmpy/base/DAG.py",
                "pgmpy/base/UndirectedGraph.py", "pgmpy/models/LinearGaussianBayesianNetwork.py")
+FACTOR_FILES = ("pgmpy/factors/discrete/DiscreteFactor.py", "pgmpy/factors/discrete/CPD.py", "pgmpy/factors/discrete/JointProbabilityDistribution.py")
 # fields of an engine that hold (or alias) objects owned by the caller
 ENGINE_FOREIGN_ROOTS = {"self.model": "the engine's model", "self.data": "the data set", "self.base_scorer": "the wrapped scorer",
                         "self.factors": "the model's factors (the engine's factor index aliases them)"}
@@ -59,6 +60,11 @@ def pure(rc):
             kind = "engine"  # private helpers included: they run on behalf of the public entry points
         elif rel in MODEL_FILES and f.cls is not None and f.name.startswith(MODEL_QUERY_PREFIXES):
             kind = "model"
+        elif rel in MODEL_FILES and f.cls is not None and "inplace" in f.params and f.qual not in SELF_EXEMPT:
+            kind = "model"  # any model method with an `inplace` switch, judged for inplace=False
+        elif rel in FACTOR_FILES and f.cls is not None and not f.name.startswith("_"):
+            # factor algebra: arguments are never modified; `self` only when inplace is requested (inplace=False judged here); queries never
+            kind = "model" if ("inplace" in f.params or f.name.startswith(("check_", "get_", "is_", "to_", "copy", "minimal_imap", "assignment", "scope", "pmap"))) else "factor-args"
         if kind is None:
             continue
         fold = {"inplace": False} if "inplace" in f.params else None
@@ -68,6 +74,8 @@ def pure(rc):
             if m.order_only:
                 continue
             if m.root == "self" or m.root.startswith("self."):
+                if kind == "factor-args":
+                    continue
                 if kind == "model":
                     if f.qual not in SELF_EXEMPT:
                         bad.append(m)
